@@ -705,12 +705,15 @@ def gen_chol(rng):
         r, c = rng.randrange(bw), rng.randrange(n + bw)
         l[r, c] = rng.choice([float('nan'), float('inf'), float('-inf')])
     b = [rng.gauss(0, 1) for _ in range(n)] + [0.0] * bw
-    return {'stream': 'chol', 'kind': kind, 'bw': bw, 'n': n, 'l': [fb(r) for r in l], 'mininf': core.f2b(mininf), 'b': fb(b)}
+    return {'stream': 'chol', 'kind': kind, 'bw': bw, 'n': n, 'l': [fb(r) for r in l], 'mininf': core.f2b(mininf), 'b': fb(b),
+            'order': rng.choice(['C', 'C', 'F'])}
 
 
 def impl_chol(case):
     from pydl.pydlutils.bspline import cholesky_band, cholesky_solve
     l = np.array([bf_(r) for r in case['l']])
+    if case.get('order') == 'F':
+        l = np.asfortranarray(l)        # the same matrix in column-major storage (a transposed view, an array from Fortran code)
     l0 = l.copy()
     try:
         with np.errstate(all='ignore'):
@@ -730,6 +733,7 @@ def check_chol(ctx, case, impl, model):
     bw, n = case['bw'], case['n']
     l = np.array([bf_(r) for r in case['l']])
     mininf = core.b2f(case['mininf'])
+    ctx.count('chol:storage-order:' + case.get('order', 'C'))
     ctx.count('chol:%s:%s:bw=%d' % (case['kind'], 'err:' + impl['err'] if 'err' in impl else ('factor' if 'status' in impl['ok'] else 'bad'), bw))
     # ---- oracle
     finite = bool(np.all(np.isfinite(l)))
@@ -746,6 +750,9 @@ def check_chol(ctx, case, impl, model):
             j, piv = pivots(A)
         scale = max(1e-300, float(np.max(np.abs(A))))
         clear = piv is not None and abs(piv) > 1e-6 * scale
+        if 'status' in I and not I.get('input_kept', True):
+            ctx.violate('cholesky_band:input-overwritten', 'after the call the matrix the caller holds is no longer A (it was used as scratch space): '
+                        'L L^T = A and A x = b do not hold for the caller\'s array', case)
         if 'status' in I:
             if not finite or neg:
                 ctx.violate('cholesky_band:bad-matrix-accepted', 'non-finite entry or diagonal <= mininf, but a factor is returned', case)
